@@ -94,6 +94,11 @@ func testReport(out string) string {
 			l = completedIn.ReplaceAllString(l, "")
 			keep = append(keep, l)
 		case strings.Contains(l, "Error:"):
+			if strings.TrimSpace(l) == compileFailed {
+				// the exit status line of the command, not part of the report
+				continue
+			}
+
 			keep = append(keep, normOut(strings.TrimSpace(l)))
 		}
 	}
@@ -103,6 +108,7 @@ func testReport(out string) string {
 
 func slug(s string) string {
 	s = digits.ReplaceAllString(strings.ToLower(s), "")
+	s = strings.NewReplacer(";", " semicolon ", "{", " brace ", "}", " closing brace ", "(", " paren ", ")", " closing paren ").Replace(s)
 
 	var b strings.Builder
 
@@ -128,12 +134,14 @@ func slug(s string) string {
 }
 
 // firstReportDiff names the first line of the formatted file's test report
-// that the original's report does not have.
+// that the original's report does not have (an error message if there is one).
 func firstReportDiff(a, b string) string {
 	have := map[string]int{}
 	for _, l := range strings.Split(a, "\n") {
 		have[l]++
 	}
+
+	first := ""
 
 	for _, l := range strings.Split(b, "\n") {
 		if have[l] > 0 {
@@ -142,10 +150,73 @@ func firstReportDiff(a, b string) string {
 			continue
 		}
 
-		return l
+		if strings.Contains(l, "Error:") {
+			return l
+		}
+
+		if first == "" {
+			first = l
+		}
 	}
 
-	return "lines missing from the report"
+	if first == "" {
+		return "lines missing from the report"
+	}
+
+	return first
+}
+
+var fileInMsg = regexp.MustCompile(`at [^ ,]*\(line N\),? ?`)
+
+// sameTokensModuloSeparators: the two texts differ at most in statement
+// separators (runs of ";", ";" next to a brace) and trailing commas.
+func sameTokensModuloSeparators(a, b string) bool {
+	norm := func(src string) []string {
+		t := tokenizer.New(src, true)
+
+		var out []string
+
+		for i, tok := range t.Tokens {
+			sp := tok.Spelling()
+			next := ""
+
+			for j := i + 1; j < len(t.Tokens); j++ {
+				if t.Tokens[j].Spelling() != ";" {
+					next = t.Tokens[j].Spelling()
+
+					break
+				}
+			}
+
+			switch {
+			case sp == ";" && tok.IsClass(tokenizer.SpecialTokenClass):
+				if len(out) == 0 || out[len(out)-1] == ";" || out[len(out)-1] == "{" || next == "}" || next == ")" || next == "" {
+					continue
+				}
+			case sp == "," && tok.IsClass(tokenizer.SpecialTokenClass):
+				if next == "}" || next == ")" || next == "]" {
+					continue
+				}
+			}
+
+			out = append(out, sp)
+		}
+
+		return out
+	}
+
+	x, y := norm(a), norm(b)
+	if len(x) != len(y) {
+		return false
+	}
+
+	for i := range x {
+		if x[i] != y[i] {
+			return false
+		}
+	}
+
+	return true
 }
 
 type corpusFile struct {
@@ -220,6 +291,7 @@ func corpus(r *report.R, scratch string) {
 		rejected   []string
 		unjudged   []string
 		skipped    []string
+		sepOnly    []string
 		sameTok    int
 		testsToRun []int
 	)
@@ -260,7 +332,12 @@ func corpus(r *report.R, scratch string) {
 				d += firstDiff(f1, f2)
 			}
 
-			add("not-idempotent:corpus", f.rel+": "+clip(d, 250), Witness{Family: "corpus", Name: f.rel, File: f.rel, Kind: "not-idempotent", Mode: "auto", Detail: d, Confirmed: "in-process parse+format, the code behind `ego fmt`"})
+			diag := "second-pass-fails"
+			if err == nil {
+				diag = driftKind(f1, f2)
+			}
+
+			add("not-idempotent:corpus:"+diag, f.rel+": "+clip(d, 250), Witness{Family: "corpus", Name: f.rel, File: f.rel, Kind: "not-idempotent", Mode: "auto", Detail: d, Confirmed: "in-process parse+format, the code behind `ego fmt`"})
 		}
 
 		if lost := lostComments(f.src, f1); len(lost) > 0 {
@@ -277,6 +354,12 @@ func corpus(r *report.R, scratch string) {
 		if f.kind == "test" {
 			if observesLines(f.src) {
 				skipped = append(skipped, f.rel)
+
+				continue
+			}
+
+			if !r.Thorough() && sameTokensModuloSeparators(f.src, f1) {
+				sepOnly = append(sepOnly, f.rel)
 
 				continue
 			}
@@ -355,6 +438,17 @@ func corpus(r *report.R, scratch string) {
 
 	ran, differ, flaky := 0, 0, 0
 
+	// files whose reports differ are re-judged twice in fresh processes; a file
+	// whose own report is not stable is not judged
+	type fresh struct {
+		ro, rf [2]string
+		ok     bool
+	}
+
+	again := map[int]*fresh{}
+
+	var fwg sync.WaitGroup
+
 	for k, i := range testsToRun {
 		f := files[i]
 		o, fm := results[k].o, results[k].f
@@ -371,54 +465,91 @@ func corpus(r *report.R, scratch string) {
 			continue
 		}
 
-		// re-judge twice in fresh processes; a file whose own report is not stable is not judged
-		var ro, rf [2]string
+		fr := &fresh{ok: true}
+		fr.ro[0], fr.rf[0] = testReport(o.Out), testReport(fm.Out)
+		again[i] = fr
 
-		stable := true
+		var mu sync.Mutex
 
-		for t := 0; t < 2; t++ {
-			a, _, ok1 := egoIn(origTree, "test", f.rel)
-			b, _, ok2 := egoIn(fmtTree, "test", f.rel)
+		for t := 1; t < 2; t++ {
+			for _, side := range []bool{false, true} {
+				fwg.Add(1)
 
-			if !ok1 || !ok2 {
-				stable = false
+				go func(t int, side bool) {
+					defer fwg.Done()
+
+					tree := origTree
+					if side {
+						tree = fmtTree
+					}
+
+					out, _, ok := egoIn(tree, "test", f.rel)
+
+					mu.Lock()
+					defer mu.Unlock()
+
+					if !ok {
+						fr.ok = false
+					}
+
+					if side {
+						fr.rf[t] = testReport(out)
+					} else {
+						fr.ro[t] = testReport(out)
+					}
+				}(t, side)
 			}
+		}
+	}
 
-			ro[t], rf[t] = testReport(a), testReport(b)
+	fwg.Wait()
+
+	for _, i := range testsToRun {
+		fr := again[i]
+		if fr == nil {
+			continue
 		}
 
-		if !stable || ro[0] != ro[1] || rf[0] != rf[1] {
+		f := files[i]
+
+		if !fr.ok || fr.ro[0] != fr.ro[1] || fr.rf[0] != fr.rf[1] {
 			flaky++
+
+			if os.Getenv("VERIF_C05_CENSUS") != "" {
+				fmt.Printf("c05: unstable %s\n--- original, batch worker\n%s\n--- original, fresh\n%s\n--- formatted, batch worker\n%s\n--- formatted, fresh\n%s\n", f.rel, fr.ro[0], fr.ro[1], fr.rf[0], fr.rf[1])
+			}
 
 			continue
 		}
 
-		if ro[0] == rf[0] {
+		if fr.ro[0] == fr.rf[0] {
 			continue
 		}
 
 		differ++
 
-		line := firstReportDiff(ro[0], rf[0])
-		add("changes-program:corpus:"+slug(strings.TrimPrefix(line, "Error:")), f.rel+": `ego test` reports differently for the formatted file: "+clip(line, 200),
+		line := firstReportDiff(fr.ro[0], fr.rf[0])
+		add("changes-program:corpus:"+slug(fileInMsg.ReplaceAllString(strings.TrimPrefix(line, "Error:"), "")), f.rel+": `ego test` reports differently for the formatted file: "+clip(line, 200),
 			Witness{Family: "corpus", Name: f.rel, File: f.rel, Kind: "changes-program", Mode: "auto", Formatted: f.f1, Detail: line,
-				Confirmed: "two fresh `ego test` runs of the original agree with each other, two of the formatted file agree with each other, and the two differ"})
+				Confirmed: "`ego test` of the original in a batch worker and in a fresh process agree with each other, the two runs of the formatted file agree with each other, and the two differ"})
 	}
 
 	sort.Slice(viols, func(a, b int) bool { return viols[a].w.Name < viols[b].w.Name })
 
 	for _, v := range viols {
+		v.w.Cell = v.cell
 		r.Violation(v.cell, len(v.w.Name), v.w, v.msg)
 	}
 
-	fmt.Printf("c05: corpus files=%d rejected-by-compiler=%d same-tokens=%d tests-run=%d differ=%d unstable=%d skipped-line-observers=%d unjudged-behaviour=%d\n",
-		len(files), len(rejected), sameTok, ran, differ, flaky, len(skipped), len(unjudged))
+	fmt.Printf("c05: corpus files=%d rejected-by-compiler=%d same-tokens=%d separator-only(not run in quick)=%d tests-run=%d differ=%d unstable=%d skipped-line-observers=%d unjudged-behaviour=%d\n",
+		len(files), len(rejected), sameTok, len(sepOnly), ran, differ, flaky, len(skipped), len(unjudged))
 
 	r.Set("corpus_files", len(files))
 	r.Set("corpus_rejected_by_compiler", rejected)
 	r.Set("corpus_formatted_with_same_tokens", sameTok)
 	r.Set("corpus_test_files_run_original_and_formatted", ran)
 	r.Set("corpus_test_files_with_unstable_report", flaky)
+	r.Set("corpus_test_files_differing_only_in_separators_not_run_in_quick_tier", sepOnly)
 	r.Set("corpus_skipped_observe_own_line_numbers", skipped)
 	r.Set("corpus_behaviour_not_judged_compile_only", unjudged)
 	r.Sample(map[string]any{"name": "corpus/" + files[0].rel, "source": clip(files[0].src, 400)})
@@ -451,14 +582,19 @@ func replay(r *report.R, scratch string) {
 
 	res := judgeAll(scratch, []Job{{Src: w.Source, Frag: w.Fragment}})
 
-	for _, f := range res[0].Findings {
+	fs := res[0].Findings
+	if strings.Contains(res[0].Died, "run-formatted") {
+		fs = append(fs, diedFinding(res[0]))
+	}
+
+	for _, f := range fs {
 		if f.Kind != w.Kind {
 			continue
 		}
 
 		if ok, how := confirm(scratch, w.Source, w.Fragment, f); ok {
 			w.Confirmed = how
-			r.Violation("replay:"+w.Kind, 1, w, w.Name+": "+f.Detail)
+			r.Violation(w.Cell, 1, w, w.Name+": "+f.Detail)
 
 			break
 		}
